@@ -87,6 +87,9 @@ def stress_cases(rng, q):
                       [(1, 50, 0), (2, 400, 0), (4, 100, 1), (8, 100, 2), (8, 400, 1), (3, 200, 2), (6, 300, 0), (8, 50, 2)]):
         for rep in range(1 if q else 4):
             cases.append(("case", ["stress %d %d %d %d" % (ng, m, nn, rng.randrange(1000)), "expectidle", "post 1", "pollone", "expectidle"]))
+    # posts racing registrations the kernel refuses (their accounting is rolled back on the counter the posts increment)
+    for rep in range(2 if q else 8):
+        cases.append(("case", ["regrace %d %d" % (4, 20000 if q else 60000), "expectidle", "post 1", "pollone", "expectidle"]))
     # the loop blocked in epoll_wait, a post racing the dispatch of the previous one
     for rep in range(2 if q else 8):
         cases.append(("case", ["race %d %d %d" % (6000 if q else 60000, rng.choice([800, 1500, 3000]), rng.randrange(1000)), "expectidle"]))
